@@ -225,6 +225,86 @@ Proof. exact peak3_half_bin. Qed.
 Print Assumptions C19_parabolic_max_within_half_bin.
 
 (* ------------------------------------------------------------------------- *)
+(* the coarse offset delta_t (round 2): occupancy histograms, full             *)
+(* cross-correlation, argmax + parabolic refinement — now inside the model     *)
+(* ------------------------------------------------------------------------- *)
+
+(* entry lag + n - 1 of correlate(x, y, "full") of the two occupancy vectors is the number of
+   (occupied x-bin i, occupied y-bin j) with i - j = lag *)
+Theorem C19_xcorr_counts_pairs : forall n xb yb lag,
+  (forall i, In i xb -> 0 <= i < n) -> (forall j, In j yb -> 0 <= j < n) ->
+  - (n - 1) <= lag <= n - 1 ->
+  nth (Z.to_nat (lag + n - 1)) (xcorr n xb yb) 0 = pair_count xb yb lag.
+Proof. exact xcorr_nth. Qed.
+Print Assumptions C19_xcorr_counts_pairs.
+
+(* parabolic_max on any 1-D array with a unique strict maximum at position p returns a peak
+   within half a sample of p (first argmax = p, then C19_parabolic_max_within_half_bin or the edge rule) *)
+Theorem C19_parabolic_peak_near_unique_maximum : forall (l : list Q) (p : nat), (p < length l)%nat ->
+  (forall q, (q < length l)%nat -> q <> p -> (nth q l 0 < nth p l 0)%Q) ->
+  (Qabs (fst (parabolic_max l) - inject_Z (Z.of_nat p)) <= 1 # 2)%Q.
+Proof. exact parabolic_max_near_unique_peak. Qed.
+Print Assumptions C19_parabolic_peak_near_unique_maximum.
+
+(* Sufficient condition for the correlation peak to be at the true lag: if more occupied-bin pairs
+   are aligned at lag L than at any other lag (e.g. all n common events fall in bins L apart and no
+   other lag aligns n pairs), then delta_t is within half a bin of L * tbin.  (Bins inside the
+   histogram: true for the source's n since 36cb437.) *)
+Theorem C19_coarse_offset_within_half_bin : forall n den tbin tsa tsb L,
+  let tmin := lmin (tsa ++ tsb) in
+  let xb := occupied tbin tmin tsa in
+  let yb := occupied tbin tmin tsb in
+  0 < tbin ->
+  (forall i, In i xb -> 0 <= i < n) -> (forall j, In j yb -> 0 <= j < n) ->
+  - (n - 1) <= L <= n - 1 ->
+  (forall lag, - (n - 1) <= lag <= n - 1 -> lag <> L -> pair_count xb yb lag < pair_count xb yb L) ->
+  exists d, coarse_delta n den tbin tsa tsb = Some d /\
+            (Qabs (d - inject_Z L * tq den tbin) <= (1 # 2) * tq den tbin)%Q.
+Proof. exact coarse_delta_near_true_lag. Qed.
+Print Assumptions C19_coarse_offset_within_half_bin.
+
+(* Soundness and completeness of the first pass with the offset the function computes itself —
+   hypotheses on the trains only: unique correlation peak at lag L; residual misalignment of the
+   a-side <= ea and of the b-side, once shifted by L bins, <= eb0; distinct events at least
+   2 tbin + ea + eb0 apart.  Then delta_t exists, is within tbin/2 of L tbin, every first-pass pair
+   is a true correspondence, and (2 (ea + eb0) + 2 <= tbin, each event once in tsb) every a-event
+   whose partner exists is paired with exactly it.  This replaces the hypothesis "delta_t is good
+   enough" of C19_first_pass_sound_partial / _complete_partial by a checkable condition on the trains. *)
+Theorem C19_first_pass_sound_complete_from_trains :
+  forall n den tbin tsa tsb L ea eb0 (t : Z -> Z) (la lb : nat -> Z),
+  let tmin := lmin (tsa ++ tsb) in
+  let xb := occupied tbin tmin tsa in
+  let yb := occupied tbin tmin tsb in
+  0 < tbin ->
+  (forall i, In i xb -> 0 <= i < n) -> (forall j, In j yb -> 0 <= j < n) ->
+  - (n - 1) <= L <= n - 1 ->
+  (forall lag, - (n - 1) <= lag <= n - 1 -> lag <> L -> pair_count xb yb lag < pair_count xb yb L) ->
+  (forall m, (m < length tsa)%nat -> Z.abs (nth m tsa 0 - t (la m)) <= ea) ->
+  (forall j, (j < length tsb)%nat -> Z.abs (nth j tsb 0 + L * tbin - t (lb j)) <= eb0) ->
+  (forall e e', e <> e' -> 2 * tbin + ea + eb0 <= Z.abs (t e - t e')) ->
+  exists d, coarse_delta n den tbin tsa tsb = Some d /\
+    (Qabs (d - inject_Z L * tq den tbin) <= (1 # 2) * tq den tbin)%Q /\
+    (forall m j, (m < length tsa)%nat ->
+       nth m (first_pass_q den tbin d tsa tsb) (-1) = j -> 0 <= j ->
+       exists i, (i < length tsb)%nat /\ j = Z.of_nat i /\ la m = lb i) /\
+    ((forall j j', (j < length tsb)%nat -> (j' < length tsb)%nat -> lb j = lb j' -> j = j') ->
+     2 * (ea + eb0) + 2 <= tbin ->
+     forall m i, (m < length tsa)%nat -> (i < length tsb)%nat -> la m = lb i ->
+       nth m (first_pass_q den tbin d tsa tsb) (-1) = Z.of_nat i).
+Proof. exact coarse_then_first_pass. Qed.
+Print Assumptions C19_first_pass_sound_complete_from_trains.
+
+(* sync_full = coarse_delta, then first_pass_q (the first pass with that rational offset), then the
+   same fit / second pass / fit as `sync` *)
+Theorem C19_sync_full_decomposes : forall linear n den tbin tsa tsb d r,
+  sync_full linear n den tbin tsa tsb = inr (d, r) ->
+  coarse_delta n den tbin tsa tsb = Some d /\
+  sync_rest linear den tbin tsa tsb (first_pass_q den tbin d tsa tsb) = Some r /\
+  sr_ib1 r = first_pass_q den tbin d tsa tsb.
+Proof. exact sync_full_decomposes. Qed.
+Print Assumptions C19_sync_full_decomposes.
+
+(* ------------------------------------------------------------------------- *)
 (* the hypotheses are satisfiable: a concrete train (ticks of 1 ms)           *)
 (* ------------------------------------------------------------------------- *)
 (* events at 0, 1, 3, 7, 12, 20, 200 s; clock b = 1.001 * a + 5 s (drift 1000 ppm so that
@@ -269,3 +349,22 @@ Example ex_parabolic_max :
   Qeq_bool (fst (parabolic_max [0; 0; 0; 0; 1; 3; 2; 0]%Q)) (31 # 6) = true /\
   Qeq_bool (snd (parabolic_max [0; 0; 0; 0; 1; 3; 2; 0]%Q)) (73 # 24) = true.
 Proof. vm_compute. split; reflexivity. Qed.
+
+(* round 2: the whole function on the same train, histogram of n = 2053 bins (span 205.2 s, tbin 0.1 s):
+   the correlation has its unique maximum at lag -50 bins (4 pairs), delta_t = -5 s, all pairs found *)
+Example ex_unique_peak :
+  let tmin := lmin (ex_tsa ++ ex_tsb) in
+  let xb := occupied 100 tmin ex_tsa in
+  let yb := occupied 100 tmin ex_tsb in
+  forallb (fun b => (0 <=? b) && (b <? 2053)) (xb ++ yb) = true /\
+  pair_count xb yb (-50) = 4 /\
+  forallb (fun k => let lag := Z.of_nat k - 2052 in (lag =? -50) || (pair_count xb yb lag <? 4))
+          (seq 0 4105) = true.
+Proof. vm_compute. repeat split. Qed.
+
+Example ex_sync_full :
+  match sync_full true 2053 1000 100 ex_tsa ex_tsb with
+  | inr (d, r) => Qeq_bool d (-5) = true /\ sr_ib r = [0; 1; 3; -1; 4; 5]
+  | inl _ => False
+  end.
+Proof. vm_compute. repeat split. Qed.
